@@ -255,6 +255,7 @@ fn run_once(c: &PolicyCase, env: &Env) -> Run {
         dead_bytes: 0,
         small_file: u64::MAX,
         sync_always: false,
+        sync_interval_ms: 0,
     };
     // phase 1: write the pattern with every background activity off
     {
